@@ -88,6 +88,7 @@ let run_pure () =
 let () =
   match Array.to_list Sys.argv with
   | _ :: "pure" :: _ -> run_pure ()
+  | _ :: "trace" :: _ -> Trace.run_trace ()
   | _ ->
     prerr_endline "usage: driver pure < cases";
     exit 2
